@@ -935,6 +935,42 @@ fn generated_databases(ctx: &mut Ctx) {
             }
             Ok(Ok(db)) => compare_db(ctx, "generated", &text, &db, &rf),
         }
+        // the same text with a section the loader does not know ([tcp:rst], [http] without a
+        // direction, [tls:request] ...) holding labels and signatures of its own, put in front of
+        // one of the section headers or at the end: whatever the loader does with that section
+        // (skip it, or refuse the text), the TCP, HTTP and MTU sections still hold exactly what
+        // was written in them
+        if i % 4 == 0 {
+            let heads: Vec<usize> = g.lines.iter().enumerate().filter(|(_, l)| l.trim_start().starts_with('[')).map(|(k, _)| k).collect();
+            let at = if heads.is_empty() || r.chance(1, 4) { g.lines.len() } else { *r.pick(&heads) };
+            let t = r.usize(4);
+            let mut block = vec![r.pick(&["[tcp:rst]", "[http]", "[tls:request]", "[udp:request]", "[tcp:ack]", "[http:push]"]).to_string()];
+            for k in 0..1 + r.usize(2) {
+                block.push(format!("label = s:unix:Ghost{k}:x"));
+                block.push("sys = Linux".to_string());
+                for _ in 0..1 + r.usize(2) {
+                    block.push(format!("sig = {}", gen_sig_text(&mut r, t, &pool)));
+                }
+            }
+            let mut lines2 = g.lines.clone();
+            for (k, l) in block.into_iter().enumerate() {
+                lines2.insert(at + k, l);
+            }
+            let (text2, _) = render(&mut r, &lines2);
+            match rt::guard(|| Database::from_str(&text2)) {
+                Err(p) => {
+                    ctx.judge(false, &[], WHAT_PANIC, || json!({"text": text2, "panic": p}));
+                }
+                Ok(Err(_)) => {
+                    ctx.eval();
+                    ctx.class("unknown-section/refused");
+                }
+                Ok(Ok(db)) => {
+                    compare_db(ctx, "generated+unknown-section", &text2, &db, &rf);
+                    ctx.class("unknown-section/loaded");
+                }
+            }
+        }
         let nsig: usize = rf.tables.iter().map(|t| t.iter().map(|e| e.1.len()).sum::<usize>()).sum();
         let empty_labels = rf.tables.iter().any(|t| t.iter().any(|e| e.1.is_empty()));
         ctx.bucket(&format!(
@@ -1229,7 +1265,7 @@ pub fn spec() -> PropSpec {
             "p0f vocabulary only: HTTP versions 0/1/*, header names over [A-Za-z0-9-], bracketed values without ']' and ':' (',' only as in the bundled file), absent lists of plain names; V20/V30, '_' in names and ':' in values are executed as unjudged probes",
             "Label values are not round-tripped through Display (the property speaks of signatures); labels are judged only through database loading",
             "generated database texts: classes before the first section, ua_os inside [http:request], sys lines only after labels, every sig preceded by a label in the same section occurrence, software strings without trailing blanks; an empty flavor field denotes no flavor",
-            "invalid texts are restricted to: sig before any label of its table/MTU section, label or sig before any section header, malformed section headers, malformed label, malformed TCP/HTTP signature value after a proper label in a known section, non-numeric or out-of-range MTU value; trailing garbage after classes=/ua_os= values and unknown keys or sections are not judged",
+            "invalid texts are restricted to: sig before any label of its table/MTU section, label or sig before any section header, malformed section headers, malformed label, malformed TCP/HTTP signature value after a proper label in a known section, non-numeric or out-of-range MTU value; trailing garbage after classes=/ua_os= values and unknown keys are not judged; a text with an unknown section may be refused or loaded, but if loaded its TCP/HTTP/MTU content must be exactly what those sections hold",
         ],
         parent_stage: None,
     }
